@@ -23,17 +23,39 @@ BASE_PID = None
 
 
 def _init_base():
+    """Scratch: $JMC_BASE/<pid> where JMC_BASE=/dev/shm/jmc-<main pid> is owned (and removed) by the
+    check's main process; stale trees of dead runs are swept at start."""
     global BASE, BASE_PID
-    top = "/dev/shm" if os.path.isdir("/dev/shm") else os.environ.get("TMPDIR", "/var/tmp")
-    BASE = os.path.join(top, "jmc-%d" % os.getpid())
+    top = os.environ.get("JMC_BASE")
+    if top is None:
+        top = new_run_base()
+    BASE = os.path.join(top, str(os.getpid()))
     BASE_PID = os.getpid()
+
+
+def new_run_base():
+    parent = "/dev/shm" if os.path.isdir("/dev/shm") else os.environ.get("TMPDIR", "/var/tmp")
+    for n in os.listdir(parent):
+        if n.startswith("jmc-"):
+            try:
+                pid = int(n[4:])
+            except ValueError:
+                continue
+            if not os.path.exists(f"/proc/{pid}"):
+                shutil.rmtree(os.path.join(parent, n), ignore_errors=True)
+    top = os.path.join(parent, "jmc-%d" % os.getpid())
+    os.makedirs(top, exist_ok=True)
+    os.environ["JMC_BASE"] = top
     import atexit
 
-    def _clean(p=BASE, pid=BASE_PID):
-        if os.getpid() == pid:
-            shutil.rmtree(p, ignore_errors=True)
+    atexit.register(cleanup_run_base)
+    return top
 
-    atexit.register(_clean)
+
+def cleanup_run_base():
+    top = os.environ.get("JMC_BASE")
+    if top and top.endswith("jmc-%d" % os.getpid()):
+        shutil.rmtree(top, ignore_errors=True)
 
 
 # ------------------------------------------------------------------------------ scenario helpers
